@@ -1,4 +1,340 @@
 import GoProbeModel.Model.C30
+import GoProbeModel.Props.C04
+
+/-!
+C30 — property theorems: a `GPDir` reader interleaved with the writer one file operation at a time.
+`snapshot`: the block list the reader works with is always the committed content of some moment of
+its run; `committed_blocks_stay_readable` / `metadata_grows`: whatever was committed stays readable
+at its recorded position while the writer goes on. Built on C04`s invariant `run_ok`.
+-/
 namespace C30
-theorem placeholder : True := trivial
+open DB WO C04
+
+/-! ## the writer of the interleaved run walks through crash states of C04 -/
+
+theorem runHistory_before (hist : List WriteOut) (k n u : Nat) (hu : u ≤ k) :
+    runHistory hist (some (k, n)) u = runHistory hist none u := by
+  induction u with
+  | zero => rfl
+  | succ v ih =>
+    rw [runHistory_succ, runHistory_succ, ih (by omega)]
+    have : stepIndex (some (k, n)) v = stepIndex none v := by
+      simp [stepIndex, show v ≠ k by omega]
+    rw [this]
+
+/-- invariant of the writer: it has completed write-outs `< k` and `n` operations of write-out `k` -/
+def WInv (hist : List WriteOut) (k0 : Nat) (w : Writer) : Prop :=
+  w.fs0 = runHistory hist none w.k ∧ k0 ≤ w.k ∧ w.k ≤ hist.length
+
+theorem writer_fs_eq (hist : List WriteOut) (k0 : Nat) (w : Writer) (h : WInv hist k0 w) :
+    w.fs hist = runHistory hist (some (w.k, w.n)) (w.k + 1) := by
+  unfold Writer.fs
+  rw [runHistory_succ, runHistory_before hist w.k w.n w.k (Nat.le_refl _), ← h.1]
+  simp [stepIndex]
+
+theorem stepWriter_inv (hist : List WriteOut) (k0 : Nat) (w : Writer) (h : WInv hist k0 w) :
+    WInv hist k0 (stepWriter hist w) := by
+  unfold stepWriter
+  split
+  · exact h
+  · rename_i hk
+    split
+    · have h1 := h.2.1; have h2 := h.2.2
+      refine ⟨?_, by simp only []; omega, by simp only []; omega⟩
+      simp only []
+      rw [runHistory_succ, ← h.1]
+      simp [stepIndex]
+    · exact ⟨h.1, h.2.1, h.2.2⟩
+
+/-- the committed blocks of a day after the first `j` write-outs -/
+def stateIds (hist : List WriteOut) (j : Nat) (iface : String) (day : Int) : List Nat :=
+  (List.range j).filter fun i => onDay hist i iface day
+
+theorem expectedIds_state (hist : List WriteOut) (k n : Nat) (iface : String) (day : Int) :
+    expectedIds hist (some (k, n)) (k + 1) iface day = stateIds hist k iface day ∨
+    expectedIds hist (some (k, n)) (k + 1) iface day = stateIds hist (k + 1) iface day := by
+  have hpre : (List.range k).filter (fun i => onDay hist i iface day && committedBy hist (some (k, n)) i)
+      = stateIds hist k iface day := by
+    unfold stateIds
+    apply List.filter_congr
+    intro i hi
+    have : i ≠ k := by have := List.mem_range.1 hi; omega
+    simp [committedBy, this]
+  unfold expectedIds
+  rw [List.range_succ, List.filter_append, hpre]
+  by_cases hc : (onDay hist k iface day && committedBy hist (some (k, n)) k) = true
+  · right
+    unfold stateIds
+    rw [List.range_succ, List.filter_append]
+    have hon : onDay hist k iface day = true := by
+      simp only [Bool.and_eq_true] at hc; exact hc.1
+    have hcb : committedBy hist (some (k, n)) k = true := by
+      simp only [Bool.and_eq_true] at hc; exact hc.2
+    simp [hon, hcb]
+  · by_cases hon : onDay hist k iface day = true
+    · left; simp [hc]
+    · right
+      unfold stateIds
+      rw [List.range_succ, List.filter_append]
+      simp [hc, hon]
+
+/-- what the writer's current state holds for a day is the state after `j` complete write-outs,
+    for some `j` between the writer's position and one more -/
+theorem writer_day_ids (hist : List WriteOut) (k0 : Nat) (w : Writer) (h : WInv hist k0 w) (hk : w.k < hist.length)
+    (iface : String) (day : Int) (d : DayFs) (hd : (w.fs hist).day? iface day = some d) :
+    DayOK hist d (d.metaIds.getD []) ∧
+    ∃ j, k0 ≤ j ∧ j ≤ hist.length ∧ d.metaIds.getD [] = stateIds hist j iface day := by
+  rw [writer_fs_eq hist k0 w h] at hd
+  obtain ⟨h1, h2⟩ := (run_ok hist (some (w.k, w.n)) (w.k + 1) (by omega)).1 iface day d hd
+  refine ⟨h1, ?_⟩
+  rcases expectedIds_state hist w.k w.n iface day with e | e
+  · exact ⟨w.k, h.2.1, by omega, by rw [h2, e]⟩
+  · exact ⟨w.k + 1, by have := h.2.1; omega, by omega, by rw [h2, e]⟩
+
+
+theorem writer_day_ids' (hist : List WriteOut) (k0 : Nat) (w : Writer) (h : WInv hist k0 w)
+    (iface : String) (day : Int) (d : DayFs) (hd : (w.fs hist).day? iface day = some d) :
+    DayOK hist d (d.metaIds.getD []) ∧
+    ∃ j, k0 ≤ j ∧ j ≤ hist.length ∧ d.metaIds.getD [] = stateIds hist j iface day := by
+  by_cases hk : w.k < hist.length
+  · exact writer_day_ids hist k0 w h hk iface day d hd
+  · have hke : w.k = hist.length := by have := h.2.2; omega
+    have hnone : hist[w.k]? = none := by rw [hke]; simp
+    have hfs : w.fs hist = runHistory hist none hist.length := by
+      unfold Writer.fs runWriteOut
+      rw [hnone, h.1, hke]
+    rw [hfs] at hd
+    obtain ⟨h1, h2⟩ := (run_ok hist none hist.length (Nat.le_refl _)).1 iface day d hd
+    refine ⟨h1, hist.length, by have := h.2.1; omega, Nat.le_refl _, ?_⟩
+    rw [h2, no_crash_all_stored]; rfl
+
+/-! ## the reader: its block list is always the committed state of some moment of its run -/
+
+theorem advance_blocks (hist : List WriteOut) (r : Reader) (b c : Nat) : (advance hist r b c).blocks = r.blocks := by
+  unfold advance
+  split
+  · rfl
+  · split <;> rfl
+
+/-- a reader step either keeps the block list or replaces it by the metadata stored right now -/
+theorem stepReader_blocks (hist : List WriteOut) (iface : String) (day : Int) (fs : Fs) (r : Reader) :
+    (stepReader hist iface day fs r).blocks = r.blocks ∨
+    ∃ d, fs.day? iface day = some d ∧ (stepReader hist iface day fs r).blocks = d.metaIds.getD [] := by
+  unfold stepReader
+  cases hd : fs.day? iface day with
+  | none =>
+    left
+    cases r.pc <;> simp only [Option.bind_none, Option.isSome_none, Option.isNone_none, Bool.and_false,
+      Bool.false_eq_true, if_false, Bool.and_true]
+    all_goals (repeat' split)
+    all_goals first | rfl | (simp [advance_blocks]; done)
+  | some d =>
+    cases hpc : r.pc with
+    | done => left; rfl
+    | listOpen => left; simp only []; split <;> rfl
+    | listClose => left; rfl
+    | openMeta =>
+      simp only [Option.bind_some]
+      split
+      · left; rfl
+      · split
+        · right; exact ⟨d, rfl, rfl⟩
+        · left; rfl
+    | metaClose => left; simp [advance_blocks]
+    | relistOpen st => left; rfl
+    | relistClose st =>
+      left
+      cases st with
+      | init => rfl
+      | reopen b c => rfl
+    | openMeta2 =>
+      simp only [Option.bind_some]
+      split
+      · right; exact ⟨d, rfl, rfl⟩
+      · left; rfl
+    | opencol b c retry =>
+      left
+      simp only []
+      split
+      · simp [advance_blocks]
+      · split
+        · simp [advance_blocks]
+        · rfl
+    | closing n =>
+      left
+      simp only []
+      split <;> rfl
+
+/-- state of an interleaved run that `snapshot` is proved about -/
+def RInv (hist : List WriteOut) (k0 : Nat) (iface : String) (day : Int) (r : Reader) : Prop :=
+  r.blocks = [] ∨ ∃ j, k0 ≤ j ∧ j ≤ hist.length ∧ r.blocks = stateIds hist j iface day
+
+theorem stepReader_inv (hist : List WriteOut) (k0 : Nat) (iface : String) (day : Int) (w : Writer) (r : Reader)
+    (hw : WInv hist k0 w) (hr : RInv hist k0 iface day r) :
+    RInv hist k0 iface day (stepReader hist iface day (w.fs hist) r) := by
+  rcases stepReader_blocks hist iface day (w.fs hist) r with h | ⟨d, hd, h⟩
+  · unfold RInv; rw [h]; exact hr
+  · obtain ⟨_, j, h1, h2, h3⟩ := writer_day_ids' hist k0 w hw iface day d hd
+    right
+    exact ⟨j, h1, h2, by rw [h, h3]⟩
+
+theorem runSched_inv (hist : List WriteOut) (k0 : Nat) (iface : String) (day : Int) :
+    ∀ (s : List Char) (w : Writer) (r : Reader), WInv hist k0 w → RInv hist k0 iface day r →
+      WInv hist k0 (runSched hist iface day s w r).1 ∧ RInv hist k0 iface day (runSched hist iface day s w r).2 := by
+  intro s
+  induction s with
+  | nil => intro w r hw hr; exact ⟨hw, hr⟩
+  | cons c s ih =>
+    intro w r hw hr
+    by_cases hc : c = 'w'
+    · subst hc
+      exact ih _ _ (stepWriter_inv hist k0 w hw) hr
+    · have : runSched hist iface day (c :: s) w r = runSched hist iface day s w (stepReader hist iface day (w.fs hist) r) := by
+        simp only [runSched]
+      rw [this]
+      exact ih _ _ hw (stepReader_inv hist k0 iface day w r hw hr)
+
+theorem finishReader_inv (hist : List WriteOut) (k0 : Nat) (iface : String) (day : Int) (w : Writer) (hw : WInv hist k0 w) :
+    ∀ (fuel : Nat) (r : Reader), RInv hist k0 iface day r →
+      RInv hist k0 iface day (finishReader hist iface day (w.fs hist) fuel r) := by
+  intro fuel
+  induction fuel with
+  | zero => intro r hr; exact hr
+  | succ f ih =>
+    intro r hr
+    simp only [finishReader]
+    split
+    · exact hr
+    · exact ih _ (stepReader_inv hist k0 iface day w r hw hr)
+
+theorem wInv_start (hist : List WriteOut) (k0 : Nat) (hk : k0 ≤ hist.length) :
+    WInv hist k0 { fs0 := (List.range k0).foldl (fun fs i => runWriteOut hist fs i 1000) Fs.empty, k := k0, n := 0 } := by
+  refine ⟨?_, Nat.le_refl _, hk⟩
+  simp only [runHistory]
+
+/-- **snapshot** (C30): for every history, every number `k0` of write-outs already in the database
+    and EVERY interleaving of the reader's and the writer's file operations, the block list the
+    reader works with is the committed content of the day after the first `j` write-outs, for some
+    `k0 ≤ j ≤ |history|` — a state that existed at some moment of the run — or it is still empty. -/
+theorem snapshot (hist : List WriteOut) (k0 : Nat) (hk : k0 ≤ hist.length) (iface : String) (day : Int) (sched : List Char) :
+    let start : Writer := { fs0 := (List.range k0).foldl (fun fs i => runWriteOut hist fs i 1000) Fs.empty, k := k0, n := 0 }
+    let wr := runSched hist iface day sched start Reader.start
+    let r := finishReader hist iface day (wr.1.fs hist) 400 wr.2
+    r.blocks = [] ∨ ∃ j, k0 ≤ j ∧ j ≤ hist.length ∧ r.blocks = stateIds hist j iface day := by
+  intro start wr r
+  have h := runSched_inv hist k0 iface day sched start Reader.start (wInv_start hist k0 hk) (Or.inl rfl)
+  exact finishReader_inv hist k0 iface day wr.1 h.1 400 wr.2 h.2
+
+
+/-! ## the buffers a caller holds stay valid until the read is over -/
+
+theorem advance_opened (hist : List WriteOut) (r : Reader) (b c : Nat) : (advance hist r b c).opened = r.opened := by
+  unfold advance
+  split
+  · rfl
+  · split <;> rfl
+
+/-- **buffers_live_until_done** (C30): a column file, once open, stays open — and the buffers the
+    caller holds slices of are not handed back to the pool — until the reader is done with the day:
+    no step of the reader closes a column file unless it is the `Close` that ends the read. (The
+    pinned code closed and re-opened every column file inside `ReadBlockAtIndex` when the directory
+    had been renamed, and the retry overwrote the slices already returned for the same block.) -/
+theorem buffers_live_until_done (hist : List WriteOut) (iface : String) (day : Int) (fs : Fs) (r : Reader) :
+    r.opened <+: (stepReader hist iface day fs r).opened ∨
+    (∃ n, r.pc = .closing n ∧ (stepReader hist iface day fs r).pc = .done) := by
+  unfold stepReader
+  cases hpc : r.pc with
+  | closing n =>
+    simp only []
+    split
+    · right; exact ⟨n, rfl, rfl⟩
+    · left; exact List.prefix_refl _
+  | _ =>
+    left
+    simp only []
+    repeat' split
+    all_goals first
+      | exact List.prefix_refl _
+      | (simp only [advance_opened]; first | exact List.prefix_refl _ | exact List.prefix_append _ _)
+
+/-! ## what was committed stays readable while the writer goes on -/
+
+theorem stateIds_prefix (hist : List WriteOut) (j j' : Nat) (h : j ≤ j') (iface : String) (day : Int) :
+    stateIds hist j iface day <+: stateIds hist j' iface day := by
+  obtain ⟨m, rfl⟩ : ∃ m, j' = j + m := ⟨j' - j, by omega⟩
+  unfold stateIds
+  rw [List.range_add, List.filter_append]
+  exact List.prefix_append _ _
+
+theorem readable_prefix (hist : List WriteOut) (d : DayFs) (M ids : List Nat) (hp : M <+: ids) (b : Nat) (hb : b < M.length) :
+    blockReadable hist d M b = blockReadable hist d ids b := by
+  obtain ⟨t, rfl⟩ := hp
+  unfold blockReadable
+  have h1 : (M ++ t)[b]? = M[b]? := List.getElem?_append_left hb
+  have h2 : (M ++ t).take b = M.take b := by
+    rw [List.take_append_of_le_length (by omega)]
+  rw [h1, h2]
+
+theorem stateIds_valid (hist : List WriteOut) (j : Nat) (hj : j ≤ hist.length) (iface : String) (day : Int) :
+    ∀ id ∈ stateIds hist j iface day, (hist[id]?).isSome := by
+  intro id hid
+  simp only [stateIds, List.mem_filter, List.mem_range] at hid
+  have : id < hist.length := by omega
+  simp [List.getElem?_eq_getElem this]
+
+/-- **committed_blocks_stay_readable** (C30): a reader that took its block list from the metadata at
+    ANY earlier moment (the state after `j` write-outs) finds every one of those blocks, in every
+    column, at the recorded position in the files as they are at ANY later moment of the writer's
+    progress — column files are append-only below the committed offset. -/
+theorem committed_blocks_stay_readable (hist : List WriteOut) (k0 : Nat) (w : Writer) (hw : WInv hist k0 w)
+    (iface : String) (day : Int) (d : DayFs) (hd : (w.fs hist).day? iface day = some d)
+    (j : Nat) (M : List Nat) (hM : M = stateIds hist j iface day) (hp : M <+: d.metaIds.getD [])
+    (b : Nat) (hb : b < M.length) :
+    blockReadable hist d M b = true := by
+  obtain ⟨hok, j', _, hj', hids⟩ := writer_day_ids' hist k0 w hw iface day d hd
+  rw [readable_prefix hist d M _ hp b hb]
+  apply readable_of_ok hist d _ hok
+  · rw [hids]; exact stateIds_valid hist j' hj' iface day
+  · have := hp.length_le; omega
+
+/-- the metadata only ever grows by appending: the list a reader took earlier is a prefix of the
+    list of every later moment -/
+theorem metadata_grows (hist : List WriteOut) (k0 : Nat) (w : Writer) (hw : WInv hist k0 w)
+    (iface : String) (day : Int) (d : DayFs) (hd : (w.fs hist).day? iface day = some d) :
+    ∃ j, k0 ≤ j ∧ d.metaIds.getD [] = stateIds hist j iface day ∧
+      ∀ j0, j0 ≤ j → stateIds hist j0 iface day <+: d.metaIds.getD [] := by
+  obtain ⟨_, j, h1, _, h3⟩ := writer_day_ids' hist k0 w hw iface day d hd
+  exact ⟨j, h1, h3, fun j0 hj0 => by rw [h3]; exact stateIds_prefix hist j0 j hj0 iface day⟩
+
+/-! ## non-vacuity and the recorded finding, on a concrete history -/
+
+def c30Hist : List WriteOut :=
+  [ { iface := "eth0", ts := 1699920300, drops := 1, flows := [exFlow 100] },
+    { iface := "eth0", ts := 1699920600, drops := 0, flows := [exFlow 10] },
+    { iface := "eth0", ts := 1699920900, drops := 0, flows := [exFlow 7] } ]
+
+def c30Run (k0 : Nat) (sched : String) : Reader :=
+  let start : Writer := { fs0 := (List.range k0).foldl (fun fs i => runWriteOut c30Hist fs i 1000) Fs.empty, k := k0, n := 0 }
+  let wr := runSched c30Hist "eth0" 1699920000 sched.toList start Reader.start
+  finishReader c30Hist "eth0" 1699920000 (wr.1.fs c30Hist) 400 wr.2
+
+
+def rep (c : Char) (n : Nat) : List Char := List.replicate n c
+
+def c30RunL (k0 : Nat) (sched : List Char) : Reader :=
+  let start : Writer := { fs0 := (List.range k0).foldl (fun fs i => runWriteOut c30Hist fs i 1000) Fs.empty, k := k0, n := 0 }
+  let wr := runSched c30Hist "eth0" 1699920000 sched start Reader.start
+  finishReader c30Hist "eth0" 1699920000 (wr.1.fs c30Hist) 400 wr.2
+
+-- a reader overtaken by one write-out recovers (re-lists, opens the column under the new name) and returns the state it opened: block 0
+example : let r := c30RunL 1 (rep 'r' 5 ++ rep 'w' 25 ++ rep 'r' 30); r.blocks = [0] ∧ r.bad = [] ∧ r.dead = false := by decide +kernel
+-- a reader that starts after the second write-out sees both blocks
+example : let r := c30RunL 1 (rep 'w' 30 ++ rep 'r' 30); r.blocks = [0, 1] ∧ r.bad = [] ∧ r.dead = false := by decide +kernel
+/-- the recorded finding in the model: the reader's single recovery attempt (list the month directory
+    again, open under the new name) is itself overtaken by a SECOND rename of the day directory;
+    `ReadBlockAtIndex` returns the error and the block is lost for this reader … -/
+example : let r := c30RunL 1 (rep 'r' 5 ++ rep 'w' 25 ++ rep 'r' 3 ++ rep 'w' 25 ++ rep 'r' 3); r.blocks = [0] ∧ r.bad = [0] := by decide +kernel
+/-- … and likewise the initial `Open`, which then fails altogether -/
+example : let r := c30RunL 1 (rep 'r' 2 ++ rep 'w' 25 ++ rep 'r' 3 ++ rep 'w' 25 ++ rep 'r' 3); r.res = some "err:open" := by decide +kernel
+
 end C30
